@@ -69,3 +69,10 @@ func init() {
 		}
 	})
 }
+
+// dbgf prints a diagnostic line when VERIF_DEBUG is set (never part of a verdict).
+func dbgf(format string, args ...interface{}) {
+	if os.Getenv("VERIF_DEBUG") != "" {
+		fmt.Fprintf(os.Stderr, "debug: "+format+"\n", args...)
+	}
+}
